@@ -47,6 +47,23 @@ fn outer(scen: &str, o: &Opts, raw: &[String]) -> i32 {
     }
 }
 
+/// `sim case <scenario> <seed> <run>`: prints the explicit case a run index denotes, without executing it.
+fn print_case(scen: &str, seed: u64, run: u64) -> i32 {
+    use harness::Scenario;
+    let j = match scen {
+        "corrupt" => scen_corrupt::Corrupt.to_json(&scen_corrupt::Corrupt.gen(seed, run)),
+        "batch" => scen_batch::Batch.to_json(&scen_batch::Batch.gen(seed, run)),
+        "chain" => scen_chain::Chain.to_json(&scen_chain::Chain.gen(seed, run)),
+        "limits" => {
+            let l = scen_limits::Limits::new();
+            l.to_json(&l.gen(seed, run))
+        }
+        _ => return usage(),
+    };
+    println!("{}", serde_json::to_string(&j).unwrap());
+    0
+}
+
 fn replay_file(path: &str, inner: bool, timeout_s: u64) -> i32 {
     let txt = match std::fs::read_to_string(path) {
         Ok(t) => t,
@@ -121,6 +138,7 @@ fn main() {
         Some("replay") if args.len() == 2 => replay_file(&args[1], false, 60),
         Some("replay-inner") if args.len() == 4 && args[2] == "--timeout" => replay_file(&args[1], true, args[3].parse().unwrap_or(60)),
         Some("limits-child") if args.len() == 2 => scen_limits::child_main(&args[1]),
+        Some("case") if args.len() == 4 => print_case(&args[1], args[2].parse().unwrap_or(1), args[3].parse().unwrap_or(0)),
         Some("limits-floors") => scen_limits::floors_main(),
         Some("limits-baseline") => scen_limits::baseline_main(),
         _ => usage(),
